@@ -137,6 +137,13 @@ func scenarios() []scenario {
 		post:    resp("200 OK", ct, jsonDoc(map[string]any{"type": "Note", "id": post, "content": "<p>a post</p>", "mediaType": "text/html", "replies": replies})),
 		replies: resp("200 OK", ct, jsonDoc(map[string]any{"type": "Collection", "id": replies, "totalItems": 1, "items": []any{map[string]any{"type": "Note", "id": h + "/notes/r1", "content": "reply", "inReplyTo": post}}})),
 	}, Hops: []string{post, replies}, Start: post, Run: newAndShow})
+	// a post whose author is fetched separately: the fault hits the fetch of the author, and
+	// the post must still be built (with an error in the author's place) in time
+	authored, author := h+"/notes/authored", h+"/users/author"
+	out = append(out, scenario{Name: "post-with-author", Routes: map[string][]byte{
+		authored: resp("200 OK", ct, jsonDoc(map[string]any{"type": "Note", "id": authored, "content": "<p>a post</p>", "mediaType": "text/html", "attributedTo": author})),
+		author:   resp("200 OK", ct, jsonDoc(map[string]any{"type": "Person", "id": author, "name": "Author", "preferredUsername": "author"})),
+	}, Hops: []string{authored, author}, Start: authored, Run: newAndShow})
 	return out
 }
 
@@ -249,6 +256,12 @@ func stage(sc scenario, f fault) string {
 	return "body"
 }
 
+// partOfItem: the second fetch of these scenarios gets a part of the item (the outbox, the
+// replies, the author): its failure is shown inside the item, which is still built.
+func partOfItem(sc scenario) bool {
+	return sc.Name == "actor" || sc.Name == "post-with-replies" || sc.Name == "post-with-author"
+}
+
 func runCase(r *ev.Report, sc scenario, f fault) {
 	uidrv.Reset()
 	w := &faultWorld{sc: sc, f: f}
@@ -276,7 +289,38 @@ func runCase(r *ev.Report, sc scenario, f fault) {
 				p = fmt.Sprint(x)
 			}
 		}()
-		gotDoc, err, _ = sc.Run(sc.Start)
+		// connections run on virtual time, so a case takes milliseconds of real time; one that
+		// has not returned after a minute is waiting for something that will never happen
+		type result struct {
+			doc bool
+			err error
+			pan string
+		}
+		done := make(chan result, 1)
+		go func() {
+			var res result
+			defer func() {
+				if x := recover(); x != nil {
+					res.pan = fmt.Sprint(x)
+				}
+				done <- res
+			}()
+			res.doc, res.err, _ = sc.Run(sc.Start)
+		}()
+		select {
+		case res := <-done:
+			gotDoc, err = res.doc, res.err
+			return res.pan
+		case <-time.After(60 * time.Second):
+			hopCls := "first-hop"
+			if f.Hop > 0 {
+				hopCls = "later-hop"
+			}
+			r.Violation(fmt.Sprintf("fault:never-returns:%s:%s:%s", f.Kind, stage(sc, f), hopCls), map[string]any{"case": c, "msg": "the fetch or the construction of the item had not returned a minute (of real time) after the fault"})
+			r.Note("stopped at the first case that never returns (its goroutines are stuck)")
+			r.Exhaustive = false
+			r.Finish()
+		}
 		return ""
 	}()
 	r.Eval(1)
@@ -320,7 +364,7 @@ func runCase(r *ev.Report, sc scenario, f fault) {
 			loc := li + strings.Index(string(raw)[li:], "\r\n")
 			complete = f.At >= loc+2
 		}
-		if (sc.Name == "actor" || sc.Name == "post-with-replies") && f.Hop == 1 {
+		if partOfItem(sc) && f.Hop == 1 {
 			// the outbox (the replies) is a part of the actor (the post): its failure is shown inside the item
 			return
 		}
@@ -334,7 +378,7 @@ func runCase(r *ev.Report, sc scenario, f fault) {
 			r.Note("complete document followed by FIN refused (allowed): %s at %d: %v", sc.Name, f.At, err)
 		}
 	}
-	if (f.Kind == "refuse" || f.Kind == "stall-connect") && err == nil && !((sc.Name == "actor" || sc.Name == "post-with-replies") && f.Hop == 1) {
+	if (f.Kind == "refuse" || f.Kind == "stall-connect") && err == nil && !(partOfItem(sc) && f.Hop == 1) {
 		r.Violation(key("no-error"), map[string]any{"case": c, "msg": "a failed connection produced no error"})
 	}
 	if f.Kind == "none" && err != nil {
@@ -351,7 +395,7 @@ func runCase(r *ev.Report, sc scenario, f fault) {
 func main() {
 	envaDir := enva.Reexec()
 	r := ev.New("C05", "fault_enumeration",
-		"corpus of 11 exchanges (6 single responses incl. nested, trailing-garbage, 4 kB and LF-only; a 3-hop and a 7-hop redirect chain; a webfinger lookup; pub.New on an actor with an outbox and on a post with separately fetched replies, both then shown in full, as previews and with their children); "+
+		"corpus of 12 exchanges (6 single responses incl. nested, trailing-garbage, 4 kB and LF-only; a 3-hop and a 7-hop redirect chain; a webfinger lookup; pub.New on an actor with an outbox, on a post with separately fetched replies and on a post with a separately fetched author, all then shown in full, as previews and with their children); "+
 			"faults: cut after every byte k of every response with FIN, with RST and as a stall, trickle (one byte per 0.6 x timeout) from 3 start points, connection refused and connection stall, at every hop; "+
 			"virtual-time connections: a stalled read times out iff a deadline is armed; Env-A: one real-time case per stall stage (before/in status line, headers, after headers, body, trickle, truncated body, no TLS handshake) over real TLS with a 1 s timeout; distinct_nontrivial = fault points inside a response (not before byte 0 or after the last byte)")
 	if *ev.FlagReplay != "" {
